@@ -355,7 +355,7 @@ Section AcceptProofs.
     (forall c, In c (w_comps w) -> hard_errs cs (c_doc c) "" = []).
   Proof.
     unfold accept. intros H.
-    apply andb_prop in H as [H _]. apply andb_prop in H as [H Hv]. apply andb_prop in H as [H Hc].
+    apply andb_prop in H as [H _]. apply andb_prop in H as [H _]. apply andb_prop in H as [H Hv]. apply andb_prop in H as [H Hc].
     apply andb_prop in H as [H Hr]. apply andb_prop in H as [Hs Hu].
     split; [|split; [|split; [|split]]].
     - apply (uniq_NoDup cid cid_eqb cid_eqb_eq); assumption.
@@ -460,7 +460,7 @@ Section AcceptProofs.
   Lemma accept_refs w : accept cs w = true -> refs_exist w = true.
   Proof.
     unfold accept. intros H. apply andb_prop in H as [H _]. apply andb_prop in H as [H _].
-    apply andb_prop in H as [H _]. apply andb_prop in H as [_ H]. assumption.
+    apply andb_prop in H as [H _]. apply andb_prop in H as [H _]. apply andb_prop in H as [_ H]. assumption.
   Qed.
 
   (* RenameRef: the j-th reference of component i now names no component *)
